@@ -39,6 +39,7 @@ THEOREMS = [
     'Px.Reverse.C12_relay', 'Px.Reverse.C12_relay_segments', 'Px.Reverse.C12_relay_stops',
     'Px.Reverse.C12_dynamic_literal', 'Px.Reverse.C12_dynamic_url',
     'Px.Reverse.C12_refused', 'Px.Reverse.C12_close', 'Px.Reverse.C12_connections_independent',
+    'Px.Reverse.C12_followup_no_upstream_route', 'Px.Reverse.C12_followup_no_route',
 ]
 RULE = ('route tables (1..3 plugins, 0..3 routes each: static with 1..3 upstream URLs http/https with/without '
         'port and path, dynamic returning Url or literal response or raising; edge URLs without scheme/host, bad '
@@ -318,6 +319,39 @@ def _drive_conn(w, case, segs, shim, wraps, hr_exc, elems):
         obs['upstream_read'] = bytes(peer.inbox)
     else:
         obs['upstream_read'] = b''
+    # a second request on the SAME connection (the follow-up loop of HttpWebServerPlugin.on_client_data calls
+    # handle_request again on the same ReverseProxy object)
+    if case.get('follow') is not None:
+        fo = case['follow']
+        first_line_connects = len(obs['connects'])
+        if td:
+            obs['f'] = 'f none'
+        elif not (h.plugin is not None and h.plugin.request.is_http_1_1_keep_alive):
+            obs['f'] = 'f notka'
+        else:
+            fsegs = [bytes.fromhex(x) for x in fo['req']]
+            fskip, _fp = _classify_follow(fsegs)
+            if fskip:
+                obs['f'] = 'f ' + fskip
+            else:
+                del hr_exc[:]
+                shim._picks = fo['picks']
+                shim.calls = 0
+                w.connect_plan.clear()
+                if fo['connect'] == 'refused':
+                    w.connect_plan.append(ConnectionRefusedError(111, 'scripted refused'))
+                fraised = None
+                for x in fsegs:
+                    cs.script_recv(('data', x))
+                    r = w.tick(h, R=[cs.fileno()], W=[])
+                    if isinstance(r, tuple):
+                        fraised = r[1]
+                        break
+                fe = hr_exc[0] if hr_exc else fraised
+                conns = ','.join('%s:%d' % (hx(a.encode() if isinstance(a, str) else a), p_) for a, p_ in w.connects[c0:])
+                obs['f'] = 'f exc=%s connects=[%s] wraps=%s client=%s' % (
+                    None if fe is None else _exc(fe), conns, _hl([x.encode() for x in wraps]), _hl(elems(h.work)))
+                obs['f_new_connects'] = len(w.connects[c0:]) - first_line_connects
     # upstream -> client
     rtd = False
     if not td and us is not None:
@@ -361,6 +395,21 @@ def _drive_conn(w, case, segs, shim, wraps, hr_exc, elems):
     return obs
 
 
+def _classify_follow(segs):
+    from proxy.http.parser import HttpParser, httpParserTypes
+    p = HttpParser(httpParserTypes.REQUEST_PARSER)
+    try:
+        for x in segs:
+            p.parse(memoryview(x))
+    except Exception:
+        return 'parse-exc', p
+    if not p.is_complete:
+        return 'incomplete', p
+    if p.buffer is not None and len(p.buffer) > 0:
+        return 'leftover', p
+    return None, p
+
+
 def _exc(e):
     n = exc_name(e)
     if n == 'RuntimeError':
@@ -377,6 +426,9 @@ def _obs_line(o):
         return o['skip']
     up = 'None' if o['up'] is None else ('closed' if o['up'][0] else 'open') + _hl(o['up'][1])
     conns = ','.join('%s:%d' % (hx(h.encode() if isinstance(h, str) else h), p) for h, p in o['connects'])
+    if 'f' in o:
+        return 'ok td=%d exc=%s connects=[%s] wraps=%s up=%s client=%s || %s' % (
+            o['td'], o['exc'], conns, _hl([x.encode() for x in o['wraps']]), up, _hl(o['client']), o['f'])
     return 'ok td=%d exc=%s connects=[%s] wraps=%s up=%s client=%s rtd=%d rclient=%s closes=%s' % (
         o['td'], o['exc'], conns, _hl([x.encode() for x in o['wraps']]), up, _hl(o['client']), o['rtd'],
         _hl(o['rclient']), o['closes'])
@@ -397,11 +449,11 @@ def _patterns(case):
     return ids
 
 
-def _match_bits(case, ids):
+def _match_bits(case, ids, follow=False):
     """which patterns match the request path, computed with the real `re` as the code does"""
     from proxy.common.utils import text_
     segs = [bytes.fromhex(s) for s in case['req']]
-    skip, p = _classify(segs)
+    skip, p = _classify_follow(segs) if follow else _classify(segs)
     if skip or p.path is None:
         return '-'
     try:
@@ -448,6 +500,13 @@ def model_lines(case):
 def _model_line(case):
     ids = _patterns(case)
     picks = ','.join(str(k) for k in case['picks']) or '-'
+    if case.get('follow') is not None:
+        fo = case['follow']
+        fpicks = ','.join(str(k) for k in fo['picks']) or '-'
+        return 'rev follow %d %s %s %s %s %s %s %s %s / %s' % (
+            case['rewrite'], case['connect'], _enc_table(case, ids), _match_bits(case, ids), picks,
+            fo['connect'], _match_bits(dict(case, req=fo['req']), ids, follow=True), fpicks,
+            ' '.join((x or '-') for x in case['req']), ' '.join((x or '-') for x in fo['req']))
     evs = ','.join((e or '-') for e in case['up']) or '-'
     return 'rev run %d %d %s %s %s %s %s %s' % (
         case['rewrite'], 1 if case.get('events') else 0, case['connect'], _enc_table(case, ids), _match_bits(case, ids), picks, evs,
@@ -596,9 +655,31 @@ def oracle(case):
     for k, (c, o) in enumerate(zip(subs, obs)):
         if not in_quantifier(c):
             continue
-        sig = _judge(c, o)
+        if c.get('follow') is not None:
+            # the first request of such a connection is judged in the single-request cases; here: the follow-up
+            sig = _judge_follow(c, o) if o.get('f', '').startswith('f exc=') else None
+        else:
+            sig = _judge(c, o)
         if sig:
             return sig if 'seq' not in case else 'connection-%d-of-%d:%s' % (k + 1, len(subs), sig)
+    return None
+
+
+def _judge_follow(case, o):
+    """second request of the connection: if none of the first matching routes yields an upstream URL
+    (no route matches, or only literal-response routes do) it must not cause an outbound connection"""
+    fm = case['follow'].get('meta') or {}
+    if not fm.get('valid'):
+        return None
+    try:
+        pt = bytes.fromhex(fm['target']).decode('utf-8')
+    except UnicodeDecodeError:
+        return None
+    lits, cands, anym, yields, inq = _route_candidates(dict(case, picks=case['follow']['picks']), pt)
+    if not inq or yields:
+        return None
+    if o.get('f_new_connects', 0) != 0:
+        return 'follow-up-request-without-upstream-route-caused-outbound-connection'
     return None
 
 
@@ -883,6 +964,19 @@ def _rseq(rng):
     return _mk_seq(rng, plugins, conns, rng.randrange(2), events=1 if rng.random() < 0.2 else 0)
 
 
+def _rfollow(rng):
+    plugins = _rtable(rng, 0.0)
+    picks = _rpicks(rng, plugins, 0.0)
+    c = _mk_case(rng, plugins, picks, rng.choice(PATHS), rng.randrange(2), up=[], version=b'HTTP/1.1',
+                 framing=rng.choice(['none', 'none', 'cl', 'cl0']))
+    t2 = rng.choice(PATHS) if rng.random() < 0.6 else rng.choice([b'/nope', b'/zzz', b'/', b'/x/y'])
+    f = _mk_case(rng, plugins, _rpicks(rng, plugins, 0.0), t2, c['rewrite'], up=[],
+                 version=rng.choice([b'HTTP/1.1', b'HTTP/1.1', b'HTTP/1.0']),
+                 connect='refused' if rng.random() < 0.05 else 'ok')
+    c['follow'] = {'req': f['req'], 'picks': f['picks'], 'connect': f['connect'], 'meta': f['meta']}
+    return c
+
+
 def corpus():
     rng = __import__('random').Random(12)
     ex = [_static('/get$', [b'http://httpbingo.org/get', b'https://httpbingo.org/get']),
@@ -1001,6 +1095,9 @@ def generate(rng, tier):
                        ws=rng.random() < 0.05, events=events, extra_headers=extra)
     for _ in range(6000 if big else 400):
         yield _rseq(rng)
+    # a second request on the same connection (same ReverseProxy object)
+    for _ in range(8000 if big else 600):
+        yield _rfollow(rng)
     # malformed / non-web requests: correspondence of the guard only
     for _ in range(1500 if big else 150):
         g = G.gen_request(rng, maxbody=40)
@@ -1038,6 +1135,14 @@ def describe(case):
     if 'seq' in case:
         return ['connections=%d' % len(case['seq'])] + [x for x in describe(case['seq'][0]) if x.startswith(('plugins', 'rewrite', 'events'))]
     m = case.get('meta') or {}
+    if case.get('follow') is not None:
+        fm = case['follow'].get('meta') or {}
+        try:
+            pt = bytes.fromhex(fm.get('target', '')).decode()
+            n = sum(1 for rs in case['plugins'] for r in rs if re.compile(r['re']).match(pt))
+        except UnicodeDecodeError:
+            n = -1
+        return ['follow-up request', 'follow-up matching-routes=' + ('0' if n == 0 else '1' if n == 1 else '2+')]
     out = ['plugins=%d' % len(case['plugins']), 'rewrite=%d' % case['rewrite'], 'events=%d' % (1 if case.get('events') else 0),
            'in-quantifier=%d' % in_quantifier(case)]
     if m.get('valid'):
